@@ -12,8 +12,17 @@ CONSTANTS DictCap, Depth,
 VARIABLES hist
 gvars == <<cap, pos, st, rep, np, hist>>
 
+(* Distances: the edges of the window, the distances already in the repetition queue (coded  *)
+(* as a simple match they make two queue entries equal), and the classes the distance coder  *)
+(* distinguishes: slot boundaries 2^e / 2^e+1 / 3*2^(e-1) (+1), and distances whose four      *)
+(* 'align' bits are all ones or all zeros (d-1 = 15, 16 mod 16) from slot 14 on.             *)
+CoderDist == {4, 5, 6, 7, 8, 9, 12, 13, 16, 17, 24, 25, 32, 33, 48, 49, 64, 65, 96, 97, 128, 129, 144, 145, 192, 193,
+              256, 257, 272, 384, 385, 512, 513, 1024, 1025, 1536, 1537, 2048, 2049, 4096}
 DistSet == {1, Avail} \cup (IF Avail >= 2 THEN {2, Avail - 1, (Avail + 1) \div 2} ELSE {}) \cup {RandomElement(1..Avail)}
-LenSet  == {2, 3, 4, 17, 18, 272, 273, RandomElement(2..273), RandomElement(2..40)}
+           \cup {rep[g] : g \in {k \in 1..4 : rep[k] <= Avail}}
+           \cup (LET c == {d \in CoderDist : d <= Avail} IN IF c = {} THEN {} ELSE {RandomElement(c), RandomElement(c)})
+(* Lengths: both sides of the length coder's bucket boundaries (2..9 | 10..17 | 18..273).    *)
+LenSet  == {2, 3, 4, 8, 9, 10, 11, 17, 18, 19, 272, 273, RandomElement(2..273), RandomElement(2..40)}
 (* Logged parameters are read back from the state change, because TLC may  *)
 (* evaluate a RandomElement inside a LET more than once.                  *)
 Log(k) == hist' = Append(hist, [k |-> k, d |-> IF k = "M" THEN rep'[1] ELSE 0, n |-> IF k = "UD" THEN pos' ELSE pos' - pos])
